@@ -286,7 +286,7 @@ def normalise(tree, rel):
     done = {}
     for qual, fn in _functions(tree):
         items = ref.get(qual)
-        if not items:
+        if not items or qual == "__all_functions__":
             continue
         m = mapping_for(fn, [(s, n) for s, n in items])
         if m:
@@ -310,6 +310,317 @@ def build(root: Path):
             sk = skeleton_of(fn)
             if any(n for _, n in sk):
                 mod[qual] = [[s, n] for s, n in sk]
-        if mod:
-            out[rel] = mod
+        mod["__all_functions__"] = [q for q, _ in _functions(tree)]
+        out[rel] = mod
     return out
+
+
+# ----------------------------------------------------------------------------------------------------------------------
+# Un-extraction of new single-use helpers
+#
+# "Extract function" is the commonest refactoring; rules that reason about the order of stages inside a driver function
+# would otherwise lose sight of the moved statements.  A helper that (a) does not exist in the reference tree, (b) is called
+# at exactly one place in the whole package, from the module that defines it, and (c) has a body that can be spliced in
+# without changing meaning (no early return, no yield, no nested scope, plain parameters) is inlined at its call site,
+# with fresh names for its parameters and locals.  The helper's definition stays in place (now uncalled).
+
+def _simple_params(fn):
+    a = fn.args
+    if a.vararg or a.kwarg or a.posonlyargs:
+        return None
+    params = [x.arg for x in a.args]
+    defaults = dict(zip(params[len(params) - len(a.defaults):], a.defaults))
+    for x, d in zip(a.kwonlyargs, a.kw_defaults):
+        params.append(x.arg)
+        if d is not None:
+            defaults[x.arg] = d
+    if any(not isinstance(d, ast.Constant) for d in defaults.values()):
+        return None
+    return params, defaults
+
+
+def _ends(stmts):
+    """Every path through stmts ends in a return (after _tailify: in a result assignment marked _is_result)."""
+    if not stmts:
+        return False
+    last = stmts[-1]
+    if isinstance(last, (ast.Return, ast.Raise)) or getattr(last, "_is_result", False):
+        return True
+    if isinstance(last, ast.If):
+        return _ends(last.body) and _ends(last.orelse)
+    if isinstance(last, ast.Try) and not last.finalbody:
+        return _ends(last.orelse or last.body) and all(_ends(h.body) for h in last.handlers)
+    return False
+
+
+def _tailify(stmts):
+    """Rewrite a statement list so that `return` occurs in tail position only (guard clauses become if/else with the rest of
+    the block in the else arm).  Returns None if a return sits inside a loop, try or with block."""
+    import copy
+    out = []
+    for i, st in enumerate(stmts):
+        if isinstance(st, ast.Return):
+            out.append(st)
+            return out  # what follows is dead
+        has_ret = any(isinstance(n, ast.Return) for n in ast.walk(st))
+        if not has_ret:
+            out.append(st)
+            continue
+        if isinstance(st, ast.Try) and not st.finalbody and i == len(stmts) - 1 and _ends([st]):
+            # a try statement in tail position whose every path returns or raises: returns stay where they are (tail of their arm)
+            parts = [_tailify(list(st.body)), _tailify(list(st.orelse))] + [_tailify(list(h.body)) for h in st.handlers]
+            if any(p_ is None for p_ in parts):
+                return None
+            new = ast.Try(body=parts[0], handlers=[ast.copy_location(ast.ExceptHandler(type=h.type, name=h.name, body=b_), h)
+                                                   for h, b_ in zip(st.handlers, parts[2:])], orelse=parts[1], finalbody=[])
+            out.append(ast.copy_location(new, st))
+            return out
+        if not isinstance(st, ast.If):
+            return None
+        rest = stmts[i + 1:]
+        body = _tailify(list(st.body) + ([] if _ends(st.body) else copy.deepcopy(rest)))
+        orelse = _tailify(list(st.orelse) + ([] if (st.orelse and _ends(st.orelse)) else copy.deepcopy(rest)))
+        if body is None or orelse is None:
+            return None
+        new = ast.If(test=st.test, body=body or [ast.Pass()], orelse=orelse)
+        out.append(ast.copy_location(new, st))
+        return out
+    return out
+
+
+def _splice_ok(fn):
+    """Body without docstring, with returns in tail position only, if it can be spliced: no yield/nested scope/global."""
+    body = [st for st in fn.body if not (isinstance(st, ast.Expr) and isinstance(st.value, ast.Constant) and isinstance(st.value.value, str))]
+    if not body:
+        return None
+    for n in ast.walk(fn):
+        if n is not fn and isinstance(n, (ast.FunctionDef, ast.AsyncFunctionDef, ast.Lambda, ast.ClassDef, ast.Yield, ast.YieldFrom, ast.Global, ast.Nonlocal, ast.Await)):
+            return None
+    return _tailify(body)
+
+
+def _replace_returns(stmts, make):
+    """Replace tail returns by make(value) statements (in place on copies)."""
+    out = []
+    for st in stmts:
+        if isinstance(st, ast.Return):
+            out.extend(make(st.value if st.value is not None else ast.Constant(None)))
+        elif isinstance(st, ast.If):
+            st.body = _replace_returns(st.body, make) or [ast.Pass()]
+            st.orelse = _replace_returns(st.orelse, make)
+            out.append(st)
+        elif isinstance(st, ast.Try):
+            st.body = _replace_returns(st.body, make) or [ast.Pass()]
+            st.orelse = _replace_returns(st.orelse, make)
+            for h in st.handlers:
+                h.body = _replace_returns(h.body, make) or [ast.Pass()]
+            out.append(st)
+        else:
+            out.append(st)
+    return out
+
+
+def _dead_after(name, caller, stmt):
+    """The caller does not read `name` after stmt before writing it (textual order; a loop around stmt wraps around)."""
+    occ = sorted(((n.lineno, n.col_offset, isinstance(n.ctx, ast.Load)) for n in ast.walk(caller)
+                  if isinstance(n, ast.Name) and n.id == name and not any(n is x for x in ast.walk(stmt))), key=lambda t: t[:2])
+    pos = (getattr(stmt, "end_lineno", stmt.lineno), getattr(stmt, "end_col_offset", 0))
+    after = [o for o in occ if o[:2] > pos]
+    loops = [lp for lp in ast.walk(caller) if isinstance(lp, (ast.For, ast.While)) and any(x is stmt for x in ast.walk(lp))]
+    if loops:
+        lp = loops[0]  # outermost
+        after += [o for o in occ if (lp.lineno, lp.col_offset) <= o[:2] < (stmt.lineno, stmt.col_offset)]
+    return not after or not after[0][2]
+
+
+class _Rename(ast.NodeTransformer):
+    def __init__(self, mapping):
+        self.m = mapping
+
+    def visit_Name(self, node):
+        if node.id in self.m:
+            return ast.copy_location(ast.Name(id=self.m[node.id], ctx=node.ctx), node)
+        return node
+
+    def visit_ExceptHandler(self, node):
+        self.generic_visit(node)
+        if node.name in self.m:
+            node.name = self.m[node.name]
+        return node
+
+
+def _inline_at(stmt, call, fn, tag, is_method, static, caller=None):
+    """Statements replacing `stmt` (whose whole value is `call`), or None."""
+    import copy
+    sp = _simple_params(fn)
+    body = _splice_ok(fn)
+    if sp is None or body is None or any(isinstance(a, ast.Starred) for a in call.args) or any(k.arg is None for k in call.keywords):
+        return None
+    params, defaults = sp
+    args = list(call.args)
+    binds = {}
+    if is_method and not static:
+        if not params:
+            return None
+        binds[params[0]] = call.func.value  # self / cls
+        params = params[1:]
+    if len(args) > len(params):
+        return None
+    for p_, a in zip(params, args):
+        binds[p_] = a
+    for k in call.keywords:
+        if k.arg not in params or k.arg in binds:
+            return None
+        binds[k.arg] = k.value
+    for p_ in params:
+        if p_ not in binds:
+            if p_ not in defaults:
+                return None
+            binds[p_] = defaults[p_]
+    assigned_in_fn = local_names(fn) | {n.id for n in ast.walk(fn) if isinstance(n, ast.Name) and isinstance(n.ctx, (ast.Store, ast.Del))}
+    caller_names = {n.id for n in ast.walk(caller) if isinstance(n, ast.Name)} if caller is not None else None
+
+    def stable(e):
+        """An argument that can stand in for the parameter everywhere: a name, a constant, or attributes of a name."""
+        while isinstance(e, ast.Attribute):
+            e = e.value
+        return isinstance(e, (ast.Name, ast.Constant))
+
+    subst, mapping, out = {}, {}, []
+    for p_, expr in binds.items():
+        if p_ not in assigned_in_fn and stable(expr):
+            subst[p_] = expr  # copy propagation: the parameter is never re-bound
+        else:
+            mapping[p_] = f"{p_}__{tag}"
+            out.append(ast.Assign(targets=[ast.Name(id=mapping[p_], ctx=ast.Store())], value=copy.deepcopy(expr), type_comment=None))
+    for n in local_names(fn) - set(binds):
+        # a local keeps its name when the caller does not use that name, or no longer needs its own value of it
+        if caller_names is not None and (n not in caller_names or _dead_after(n, caller, stmt)):
+            continue
+        mapping[n] = f"{n}__{tag}"
+
+    class _Subst(ast.NodeTransformer):
+        def visit_Name(self, node):
+            if node.id in subst and isinstance(node.ctx, ast.Load):
+                return copy.deepcopy(subst[node.id])
+            if node.id in mapping:
+                return ast.copy_location(ast.Name(id=mapping[node.id], ctx=node.ctx), node)
+            return node
+
+        def visit_ExceptHandler(self, node):
+            self.generic_visit(node)
+            if node.name in mapping:
+                node.name = mapping[node.name]
+            return node
+
+    new_body = [_Subst().visit(copy.deepcopy(st)) for st in body]
+
+    def make(value):
+        if isinstance(stmt, ast.Assign):
+            a = ast.Assign(targets=copy.deepcopy(stmt.targets), value=value, type_comment=None)
+        elif isinstance(stmt, ast.Return):
+            return [ast.Return(value=value)]
+        else:
+            a = ast.Expr(value=value)
+        a._is_result = True
+        return [a]
+
+    had_return = any(isinstance(n, ast.Return) for st_ in new_body for n in ast.walk(st_))
+    new_body = _replace_returns(new_body, make)
+    if not had_return or not _ends(new_body):
+        # some path falls off the end: the call evaluates to None there
+        if isinstance(stmt, (ast.Assign, ast.Return)):
+            if had_return:
+                return None  # mixed: not worth the case analysis
+            new_body += make(ast.Constant(None))
+    out += new_body
+    # positions: all on the line of the call, columns increasing in source order, so that rules ordering by position see the
+    # statements in the order in which they run
+    counter = [0]
+
+    def place(node):
+        counter[0] += 1
+        node.lineno = node.end_lineno = stmt.lineno
+        node.col_offset = node.end_col_offset = stmt.col_offset + counter[0]
+        for child in ast.iter_child_nodes(node):
+            place(child)
+
+    for st in out:
+        place(st)
+    return out
+
+
+def unextract(trees):
+    """trees: {rel: module tree}.  Inlines new single-use helpers; returns [(caller module, helper name)]."""
+    ref = reference()
+    known = {rel: set(m.get("__all_functions__", [])) for rel, m in ref.items()}
+    if not any(known.values()):
+        return []
+    # definitions that are new, and call counts by simple name over the whole package
+    defs = {}
+    for rel, tree in trees.items():
+        for qual, fn in _functions(tree):
+            if qual not in known.get(rel, set()) and "<locals>" not in qual and not fn.decorator_list or \
+                    (qual not in known.get(rel, set()) and "<locals>" not in qual and [ast.unparse(d) for d in fn.decorator_list] == ["staticmethod"]):
+                defs.setdefault(fn.name, []).append((rel, qual, fn))
+    counts = Counter()
+    for tree in trees.values():
+        for n in ast.walk(tree):
+            if isinstance(n, ast.Call):
+                nm = n.func.id if isinstance(n.func, ast.Name) else n.func.attr if isinstance(n.func, ast.Attribute) else None
+                if nm in defs:
+                    counts[nm] += 1
+            elif isinstance(n, (ast.Name, ast.Attribute)):
+                pass
+    # a helper also referenced as a value (callback) is left alone
+    refs = Counter()
+    for tree in trees.values():
+        for n in ast.walk(tree):
+            nm = n.id if isinstance(n, ast.Name) else n.attr if isinstance(n, ast.Attribute) else None
+            if nm in defs and isinstance(getattr(n, "ctx", None), ast.Load):
+                refs[nm] += 1
+    done = []
+    tag_no = 0
+    for name, lst in defs.items():
+        if len(lst) != 1 or counts[name] != 1 or refs[name] != 1:
+            continue
+        rel, qual, fn = lst[0]
+        tree = trees[rel]
+        is_method = "." in qual
+        static = any(ast.unparse(d) == "staticmethod" for d in fn.decorator_list)
+        # find the statement whose whole value is the call
+        target = None
+        for owner in ast.walk(tree):
+            for field in ("body", "orelse", "finalbody"):
+                block = getattr(owner, field, None)
+                if not isinstance(block, list):
+                    continue
+                for i, st in enumerate(block):
+                    val = st.value if isinstance(st, (ast.Assign, ast.Expr, ast.Return)) else None
+                    if isinstance(val, ast.Call):
+                        nm = val.func.id if isinstance(val.func, ast.Name) else val.func.attr if isinstance(val.func, ast.Attribute) else None
+                        if nm == name and (isinstance(val.func, ast.Name) != is_method or (is_method and isinstance(val.func, ast.Attribute)
+                                                                                           and isinstance(val.func.value, ast.Name))):
+                            if is_method and not (isinstance(val.func, ast.Attribute) and val.func.value.id in ("self", "cls", qual.split(".")[0])):
+                                continue
+                            target = (block, i, st, val)
+        if target is None:
+            continue
+        block, i, st, call = target
+        # the call must sit outside the helper itself
+        if any(x is st for x in ast.walk(fn)):
+            continue
+        tag_no += 1
+        caller_fn = next((f_ for _, f_ in _functions(tree) if any(x is st for x in ast.walk(f_)) and not any(
+            x is st for g_ in ast.walk(f_) if g_ is not f_ and isinstance(g_, (ast.FunctionDef, ast.AsyncFunctionDef)) for x in ast.walk(g_))), None)
+        new = _inline_at(st, call, fn, f"in{tag_no}", is_method, static, caller_fn)
+        if new is None:
+            continue
+        block[i:i + 1] = new
+        done.append((rel, qual))
+        # the definition is now uncalled: take it out of the tree so that no rule analyses it as a stage of its own
+        for owner in ast.walk(tree):
+            body = getattr(owner, "body", None)
+            if isinstance(body, list) and any(x is fn for x in body):
+                body[:] = [x for x in body if x is not fn] or [ast.Pass()]
+    return done
